@@ -139,7 +139,81 @@ def main():
             rec = None
     if isinstance(rec, dict) and rec.get("kind") == "bounded-symbolic":
         return bounded(rec, os.path.realpath(sys.argv[2]))
-    return pchip()
+    rc = pchip()
+    if rc:
+        return rc
+    return gradients_vs_finite_differences()
+
+
+def gradients_vs_finite_differences():
+    """the property itself on a small emu-sv run (2 atoms, 3 steps, per-step drives as autograd leaves): the
+    autograd gradient of a loss built from the results equals its central finite difference -- final-time and
+    intermediate-time occupations, energy, a non-normalised initial state, every drive kind"""
+    import torch
+    sys.path.insert(0, os.path.dirname(os.path.abspath(__file__)))
+    from native_util import patch_pulser_observable, make_sequence_data
+    patch_pulser_observable()
+    from emu_sv import SVConfig, StateVector
+    from emu_sv.sv_backend import SVBackend
+    from pulser.backend import Occupation, Energy
+    c = torch.complex128
+    base = {"omega": torch.tensor([[2.0, 3.0], [2.5, 1.0], [1.5, 2.0]], dtype=c),
+            "delta": torch.tensor([[0.5, -0.3], [0.2, 0.1], [-0.4, 0.3]], dtype=c),
+            "phi": torch.tensor([[0.3, 0.1], [0.2, 0.4], [0.1, 0.2]], dtype=c)}
+
+    def run(drives, obs, init=None):
+        sd = make_sequence_data(2, 3, omega=drives["omega"], delta=drives["delta"], phi=drives["phi"])
+        cfg = SVConfig(observables=obs, gpu=False, krylov_tolerance=1e-10, log_level=50,
+                       **({"initial_state": init} if init is not None else {}))
+        return SVBackend._run_from_sequence_data(sd, cfg)
+
+    def occ_loss(times, init=None):
+        def f(drives):
+            res = run(drives, [Occupation(evaluation_times=times)], init() if init else None)
+            return sum((o[0] + 0.3 * o[1]).real for o in res.occupation)
+        return f
+
+    def energy_loss(drives):
+        res = run(drives, [Energy(evaluation_times=[1.0])])
+        e = res.energy[-1]
+        return e.real if torch.is_tensor(e) else torch.as_tensor(e)
+
+    unnorm = lambda: StateVector(torch.tensor([1.0, 0.5j, 0.2, 0.1], dtype=c) * 2.0, gpu=False)
+    cases = [("final-time occupation", occ_loss([1.0]), ("omega", "delta", "phi"), None),
+             ("occupation at intermediate times", occ_loss([1 / 3, 2 / 3, 1.0]), ("omega", "delta"), None),
+             ("final-time occupation from a non-normalised initial state", occ_loss([1.0], unnorm), ("omega",), None),
+             ("energy", energy_loss, ("omega", "delta"), "F30"),
+             ("energy", energy_loss, ("phi",), "F29")]
+    for label, loss, wrt, known in cases:
+        for name in wrt:
+            where = f"d({label})/d({name})"
+            try:
+                leaf = base[name].clone().requires_grad_(True)
+                val = loss(dict(base, **{name: leaf}))
+                val.backward()
+                ad = leaf.grad.real.clone()
+                fd = torch.zeros_like(ad)
+                eps = 1e-6
+                for i in range(ad.shape[0]):
+                    for j in range(ad.shape[1]):
+                        xp, xm = base[name].clone(), base[name].clone()
+                        xp[i, j] += eps
+                        xm[i, j] -= eps
+                        fd[i, j] = (float(loss(dict(base, **{name: xp}))) - float(loss(dict(base, **{name: xm})))) / (2 * eps)
+                dev = float((ad - fd).abs().max())
+                bad = None if (torch.isfinite(ad).all() and dev <= 1e-6) else \
+                    f"autograd and finite differences differ by {dev:.3g} (autograd finite: {bool(torch.isfinite(ad).all())})"
+            except Exception as e:          # noqa: BLE001
+                bad = f"{type(e).__name__}: {str(e)[:160]}"
+            if bad and known:
+                print(f"  KNOWN-FINDING-{known}-INPUT-FAILS: {where}: {bad}")
+            elif bad:
+                print(f"REPRODUCED: emu-sv, 2 atoms, 3 steps, per-step drives as autograd leaves: {where}: {bad}")
+                return 1
+    print("NOT-REPRODUCED: autograd gradients of occupation / energy losses equal central finite differences (1e-6) for "
+          "per-step amplitudes, detunings and phases, also with intermediate evaluation times and a non-normalised "
+          "initial state")
+    return 0
 
 
 if __name__ == "__main__":
